@@ -47,6 +47,10 @@ CHECKS["C16"] = dict(engine="E3", level="fault_enumeration", technique="determin
    text="Scenarios (size around the 32 KiB buffer boundary, permission bits, source and destination among MemFS, OrefaFS, BasePathFS, RoFS, OsFS on a tmpfs scratch directory, hasher or none, existing destination) for CopyFile, CopyFileHash and HashFile. A recording fault-free run lists the primitives invoked on each side; then EVERY single-fault plan (side, primitive F, k-th invocation) through FailFS is executed, plus simulated-disk faults (short reads, a write that stores n bytes then fails, short write without error, Close and Sync errors). Oracle: nil error implies destination bytes = source bytes, equal permission bits, digest = SHA-256 of the bytes; a fired fault on open/read/write/sync/stat/chmod/destination close implies a non-nil error; short reads must not change the result. A concurrent variant runs 2-3 copies at once under the seeded scheduler (shared buffer pool).",
    note="trusted: read-back through the underlying file systems, crypto/sha256; a Close error of the source handle may be ignored", ref="3/C16")
 
+CHECKS["C17"] = dict(engine="E3", level="exploration", technique="deterministic twin simulation across the OS-type configuration: Windows-typed vs Linux-typed instance of the same file system, built with avfs_setostype",
+   text="In a simulator built with -tags 'verif avfs_setostype': static checks (reported OS type, separator, volume calls against a set model) and seeded histories of the C01 templates expressed with portable path builders (Join of name components under the instance's own root or volume), issued by the administrator on a Windows-typed and a Linux-typed instance of MemFS or OrefaFS: call-by-call agreement on success/failure, isomorphic trees after ToSlash and volume stripping (names, types, contents, link counts, link targets), Windows-typed errors are WindowsError values. Chown/Lchown are not generated and permission bits/owners are not compared (documented OS-specific). Sampling, not proof.",
+   note="reference = Linux-typed instance of the same implementation (common sequential defects cancel: C01's); system directories differ by design, histories run below a work directory", ref="3/C17")
+
 NA = {
  "C13": "Clean, Join, Split, Dir, Base, IsAbs, Rel, Abs, FromSlash, ToSlash, VolumeName, Match and PathIterator are pure functions of their string arguments and the OS-type constant: there is no schedule, clock, I/O, fault or shared state for a simulator to control; generating strings is input fuzzing, a different technique (DESIGN.md section 4).",
 }
